@@ -123,6 +123,11 @@ func replayOne(cfg replayCfg, bi int, beh []step) behResult {
 	for si, st := range beh {
 		var got *absState
 		var ev *poolEvent
+		if st.Nalt > 1 {
+			// the specification allows several outcomes here (which remote transaction a full pool
+			// discards, account order in truncation): from now on a difference is not a mismatch
+			nd = true
+		}
 		h.mu.Lock()
 		evFrom := len(h.events)
 		h.mu.Unlock()
@@ -256,9 +261,6 @@ func replayOne(cfg replayCfg, bi int, beh []step) behResult {
 			fatal(fmt.Errorf("unknown op %q in behaviour %d", st.Op, bi))
 		}
 		res.steps++
-		if st.Nalt > 1 {
-			nd = true
-		}
 		// schedule check: no run other than the planned ones may have promoted or changed anything
 		{
 			h.mu.Lock()
